@@ -160,8 +160,10 @@ JudgeGetStatusWire(o) ==
     ELSE << >>
 
 \* ---- monitor state -----------------------------------------------------------------------
+\* a request whose Send failed never reached the kernel: nothing is queued for it, nothing is pending
+SendFailed(fr) == Len(fr) > 0 /\ fr[1].k = "sendfail"
 RECURSIVE FlattenPlan(_, _)
-FlattenPlan(plan, i) == IF i > Len(plan) THEN << >> ELSE plan[i] \o FlattenPlan(plan, i + 1)
+FlattenPlan(plan, i) == IF i > Len(plan) THEN << >> ELSE (IF SendFailed(plan[i]) THEN << >> ELSE plan[i]) \o FlattenPlan(plan, i + 1)
 
 MonInit ==
     [ mwire  |-> << >>,     \* every frame the kernel queued and the client has not taken yet (X-ASYNC)
@@ -200,7 +202,9 @@ StepOp(m0, o) ==
         f17 ==
           IF o.name \in SetterNames /\ o.mode = "nowait" THEN
                (IF o.pops # 0 THEN << Flag("C17", "a NoWait request consumed frames from the socket") >> ELSE << >>)
-               \o (IF o.ret # "nil" THEN << Flag("C17", "a NoWait request failed although it was sent") >> ELSE << >>)
+               \o (IF SendFailed(PlanAt(o.plan, 1)) THEN
+                       (IF o.ret = "nil" THEN << Flag("C17", "a NoWait request returned nil although it could not be sent") >> ELSE << >>)
+                   ELSE IF o.ret # "nil" THEN << Flag("C17", "a NoWait request failed although it was sent") >> ELSE << >>)
           ELSE IF o.name = "WaitForPendingACKs" /\ ~m.desync /\ w.v # -2 THEN
                (IF w.v = 0 /\ o.ret # "nil" THEN << Flag("C17", "WaitForPendingACKs failed although every pending ACK carried errno 0") >>
                 ELSE IF w.v # 0 /\ o.ret = "nil" THEN << Flag("C17", "WaitForPendingACKs returned nil although a pending ACK carried an error") >>
@@ -241,12 +245,12 @@ StepOp(m0, o) ==
         \* next state
         ackv == AckOf(PlanAt(o.plan, 1), 1).v
         newPend ==
-          IF o.name \in SetterNames /\ o.mode = "nowait" THEN Append(m.pend, PlanAt(o.plan, 1))
-          ELSE IF o.name = "Close" /\ ~m.closed /\ m.setpid THEN Append(m.pend, PlanAt(o.plan, 1))
+          IF o.name \in SetterNames /\ o.mode = "nowait" /\ ~SendFailed(PlanAt(o.plan, 1)) THEN Append(m.pend, PlanAt(o.plan, 1))
+          ELSE IF o.name = "Close" /\ ~m.closed /\ m.setpid /\ ~SendFailed(PlanAt(o.plan, 1)) THEN Append(m.pend, PlanAt(o.plan, 1))
           ELSE IF o.name = "WaitForPendingACKs" THEN SubSeq(m.pend, w.consumed + 1, Len(m.pend))
           ELSE m.pend
         \* any script outside the well-formed / in-quantifier shapes leaves the socket unknown
-        bad(fr) == \E i \in 1..Len(fr) : fr[i].k \in {"hard", "short", "sendfail"} \/ (fr[i].k = "msg" /\ fr[i].rel = "foreign")
+        bad(fr) == \E i \in 1..Len(fr) : fr[i].k \in {"hard", "short"} \/ (fr[i].k = "msg" /\ fr[i].rel = "foreign")
         strange == (\E n \in 1..Len(o.plan) : bad(o.plan[n]))
                    \/ (IsWaitCmd(o) /\ (~clean \/ \E n \in 1..Len(o.plan) : AckOf(o.plan[n], 1).v \in {-1, -2}))
                    \/ (o.name = "WaitForPendingACKs" /\ w.v \in {-1, -2})
